@@ -159,3 +159,73 @@ Proof.
   - intros k o Hk t Ht. exact (order_ok_sound out (g_ops out) 0 Hord k o Hk t Ht).
   - intros k s Hk Hn. exact (unmapped_ok_sound src out psi phi (map snd phi) (g_ops src) 0 Hun k s Hk Hn).
 Qed.
+
+(* ---------- whole model (every subgraph) ---------- *)
+(* what acceptance of one (source subgraph, output subgraph) pair means *)
+Definition SubgraphPreserved (src out : gsum) (psi phi : list (Z * Z)) : Prop :=
+  Forall2 (TensSame src out psi) (g_in out) (g_in src) /\
+  Forall2 (TensSame src out psi) (g_out out) (g_out src) /\
+  (forall k o, nth_error (g_ops out) k = Some o -> os_npu o = false ->
+     exists j s, assoc phi (Z.of_nat k) = Some j /\ nthZ (g_ops src) j = Some s /\ OpVerbatim src out psi o s) /\
+  (forall k1 k2 j, assoc phi k1 = Some j -> assoc phi k2 = Some j -> k1 = k2) /\
+  (forall t1 t2 u, assoc psi t1 = Some u -> assoc psi t2 = Some u -> t1 = t2) /\
+  (forall k o, nth_error (g_ops out) k = Some o -> forall t, In t (os_in o) -> InputAvailable out (Z.of_nat k) t) /\
+  (forall k s, nth_error (g_ops src) k = Some s -> ~ In (Z.of_nat k) (map snd phi) -> accounted src out psi s = true).
+
+Lemma check_preserved_SubgraphPreserved src out psi phi :
+  check_preserved src out psi phi = true -> SubgraphPreserved src out psi phi.
+Proof. exact (check_preserved_sound_lemma src out psi phi). Qed.
+
+Lemma forallb_check_sub_nth : forall (src out : list gsum) (wit : list witness),
+  length src = length out -> length wit = length out ->
+  forallb check_sub (combine (combine src out) wit) = true ->
+  forall k s o, nth_error src k = Some s -> nth_error out k = Some o ->
+  exists psi phi, nth_error wit k = Some (psi, phi) /\ check_preserved s o psi phi = true.
+Proof.
+  induction src as [|s0 src IH]; intros out wit Hl Hw H k s o Hs Ho.
+  - destruct k; discriminate.
+  - destruct out as [|o0 out]; [discriminate|]. destruct wit as [|[psi0 phi0] wit]; [discriminate|].
+    cbn [combine forallb check_sub] in H. apply andb_true_iff in H as [H0 Ht].
+    destruct k as [|k]; cbn [nth_error] in Hs, Ho |- *.
+    + injection Hs as <-. injection Ho as <-. exists psi0, phi0. split; [reflexivity | exact H0].
+    + cbn [length] in Hl, Hw. apply (IH out wit); try assumption; lia.
+Qed.
+
+Theorem check_preserved_model_sound_lemma (src out : list gsum) (wit : list witness) :
+  check_preserved_model src out wit = true ->
+  (* same number of subgraphs ... *)
+  length out = length src /\
+  (* ... and subgraph k of the output preserves subgraph k of the source, for every k *)
+  (forall k s o, nth_error src k = Some s -> nth_error out k = Some o ->
+     exists psi phi, nth_error wit k = Some (psi, phi) /\ SubgraphPreserved s o psi phi) /\
+  (* (every subgraph of either model is covered by the previous clause) *)
+  (forall k, (exists s, nth_error src k = Some s) <-> (exists o, nth_error out k = Some o)).
+Proof.
+  unfold check_preserved_model. intros H.
+  apply andb_true_iff in H as [H Hall]. apply andb_true_iff in H as [Hl Hw].
+  apply Nat.eqb_eq in Hl, Hw.
+  split; [symmetry; exact Hl|]. split.
+  - intros k s o Hs Ho.
+    destruct (forallb_check_sub_nth src out wit Hl Hw Hall k s o Hs Ho) as (psi & phi & Hn & Hc).
+    exists psi, phi. split; [exact Hn | apply check_preserved_SubgraphPreserved; exact Hc].
+  - intros k. split; intros [x Hx].
+    + destruct (nth_error out k) as [o|] eqn:E; [exists o; reflexivity|].
+      apply nth_error_None in E. assert (k < length src)%nat by (apply nth_error_Some; congruence). lia.
+    + destruct (nth_error src k) as [s|] eqn:E; [exists s; reflexivity|].
+      apply nth_error_None in E. assert (k < length out)%nat by (apply nth_error_Some; congruence). lia.
+Qed.
+
+(* the hypotheses are satisfiable by a non-trivial instance: a two-subgraph model whose second subgraph
+   keeps a CPU operator with a constant operand (data hash 77); emptying that constant in the output
+   (data hash 0) is rejected *)
+Example model_ok :
+  let g0 := {| g_tens := [{| ts_sig := 5; ts_data := 0 |}; {| ts_sig := 6; ts_data := 0 |}];
+               g_ops := [{| os_sig := 9; os_in := [0]; os_out := [1]; os_npu := false |}]; g_in := [0]; g_out := [1] |} in
+  let g1 := {| g_tens := [{| ts_sig := 5; ts_data := 0 |}; {| ts_sig := 7; ts_data := 77 |}; {| ts_sig := 6; ts_data := 0 |}];
+               g_ops := [{| os_sig := 11; os_in := [0; 1]; os_out := [2]; os_npu := false |}]; g_in := [0]; g_out := [2] |} in
+  let g1' := {| g_tens := [{| ts_sig := 5; ts_data := 0 |}; {| ts_sig := 7; ts_data := 0 |}; {| ts_sig := 6; ts_data := 0 |}];
+                g_ops := g_ops g1; g_in := [0]; g_out := [2] |} in
+  check_preserved_model [g0; g1] [g0; g1] [([(0, 0); (1, 1)], [(0, 0)]); ([(0, 0); (2, 2)], [(0, 0)])] = true /\
+  check_preserved_model [g1; g0] [g1'; g0] [([(0, 0); (1, 1); (2, 2)], [(0, 0)]); ([(0, 0); (1, 1)], [(0, 0)])] = false /\
+  check_preserved_model [g0; g1] [g0] [([(0, 0); (1, 1)], [(0, 0)])] = false.
+Proof. vm_compute. repeat split. Qed.
